@@ -26,8 +26,8 @@ def cases(tier, seed):
         for mo in models:
             for mom in moms:
                 for N in Ns:
-                    if tier == "quick" and mo == "chain" and (N == 1 or mom == 0.5):
-                        continue  # the chain is the slowest case: quick keeps N=2 with symbolic and zero momentum
+                    if tier == "quick" and mo == "chain" and (N == 1 or mom == 0.0):
+                        continue  # the chain is the slowest case: quick keeps N=2 with symbolic momentum and 0.5
                     out.append(dict(kind="ema", act=a, model=mo, momentum=mom, N=N))
     return out
 
@@ -217,9 +217,15 @@ def run_case(case, res):
                     pre.append(pc if o else z3.Not(pc))
                 if which == "in" and info["ins"][n][0][0] == "adopt":
                     # module fed an already quantized tensor: adopts that tensor's scale
-                    exp = r.tr(info["ins"][n][-1][1][0])
+                    exp_t = info["ins"][n][-1][1][0]
+                    if s_term is exp_t:
+                        res.query("adopts-scale-of-quantized-input", "ALG", "unsat", 0.0, sub=f"{n} N={N} path={sig} (identical terms)")
+                        continue
+                    # not the same term: the seed is replayed at once (structural defects do not depend on the values)
+                    res.candidate("ema", "ALG", enc(xs, float(mom_t) if info["M"] is not None else info["mom"]), note="input scale of a module fed a quantized tensor is not that tensor's scale term")
+                    exp = r.tr(exp_t)
                     for gi, g in enumerate((sr - exp, exp - sr)):
-                        v, secs, model_ = api.solve(pre + [g > rv(4 * u) * zabs(exp) + rv(eta)], 60)
+                        v, secs, model_ = api.solve(pre + [g > rv(4 * u) * zabs(exp) + rv(eta)], 30)
                         res.query("adopts-scale-of-quantized-input", "RERR", v, secs, sub=f"{n} N={N} path={sig} side{gi}")
                         if v == "sat":
                             res.candidate("ema", "RERR", enc([api.tensor_from_values(api.real_model_values(r, model_, X, torch.float32), shape, torch.float32) for X in info["X"]], api.real_model_values(r, model_, info["M"], torch.float32)[0] if info["M"] is not None else info["mom"]))
